@@ -11,16 +11,16 @@ import (
 )
 
 type instCtx struct {
-	e       *Engine
-	mulPool map[string][]*Term // ground x occurring as bvmul(x, c), keyed by c
-	rangeStarts []*Term // ground first addresses a of range guards (k - a) <u n occurring under quantifiers
-	pool    map[*Sort][]*Term // candidate index terms by array sort of the select they occur under
-	fam     map[string][]*Term // ... and by array family (the heap component the array is a version of)
-	appArgs map[string][][]*Term
-	seenIdx map[*Term]bool
-	skolems []*Term
-	skCache map[*Term]*Term
-	bailed  bool // some quantifier could not be eliminated
+	e           *Engine
+	mulPool     map[string][]*Term // ground x occurring as bvmul(x, c), keyed by c
+	rangeStarts []*Term            // ground first addresses a of range guards (k - a) <u n occurring under quantifiers
+	pool        map[*Sort][]*Term  // candidate index terms by array sort of the select they occur under
+	fam         map[string][]*Term // ... and by array family (the heap component the array is a version of)
+	appArgs     map[string][][]*Term
+	seenIdx     map[*Term]bool
+	skolems     []*Term
+	skCache     map[*Term]*Term
+	bailed      bool // some quantifier could not be eliminated
 }
 
 func hasQuant(t *Term, cache map[*Term]bool) bool {
